@@ -139,10 +139,17 @@ func (m *LoadBalancedManager) RemoveConn(u Upstream) {
 	if !ok {
 		return
 	}
+	registered := len(lb.upstreams)
 	if lb.Remove(u) {
 		delete(m.localUpstreams, u.EndpointID())
 
 		m.metrics.RegisteredEndpoints.Dec()
+	}
+	if len(lb.upstreams) == registered {
+		// The upstream has already been removed (such as removed by the proxy
+		// after it signalled go-away, then again when it disconnects), so
+		// there is nothing to deregister.
+		return
 	}
 
 	m.cluster.RemoveLocalEndpoint(u.EndpointID())
